@@ -246,6 +246,12 @@ def gen_project(rng):
     for ns in (rng.sample(NAMESPACES, rng.randint(1, 2)) if use_ns else [None]):
         d = gen_tree(rng, 0, None, plurals)
         units.append({"ns": ns, "trees": [d] + [derive_tree(rng, d) for _ in locales[1:]]})
+    for u in units:
+        if rng.random() < 0.3:
+            pre = (u["ns"] + ":") if u["ns"] else ""
+            for t in u["trees"]:
+                t.append(("fkt", ("str", "T {{ name }} and {{ n }} {{ who }}")))
+                t.append(("fku", ("fkargs", pre + "fkt", [("name", "A"), ("n", "{{ n }} x"), ("who", "<b>w</b>")], rng.choice(["", "see "]), rng.choice(["", " end"]))))
     proj = {"locales": locales, "units": units, "fault": None}
     if rng.random() < 0.25:
         inject_fault(rng, proj)
@@ -361,8 +367,33 @@ def num_spelling(v, fmt, rng):
     return o
 
 
-def seq_spelling(el, fmt, rng, flow=True):
+def branch_object(el, fmt, rng):
+    """a range branch `[value, count...]` written as the object `{count, value}` the parser accepts as well (RangeStructSeed::
+    visit_map): members in either order; no count = the fallback; several counts = a list"""
+    value = seq_spelling(el[0], fmt, rng)
+    members = [("value", value)]
+    if len(el) == 2:
+        members.append(("count", seq_spelling(el[1], fmt, rng)))
+    elif len(el) > 2:
+        members.append(("count", seq_spelling(list(el[1:]), fmt, rng)))
+    rng.shuffle(members)
+    spelled(fmt, "range branch as object, %s first" % members[0][0] if len(members) == 2 else "range branch as object, value only")
+    if fmt == "json":
+        return "{" + ", ".join("%s: %s" % (jstr(k), v) for k, v in members) + "}"
+    if fmt == "json5":
+        return "{" + ", ".join("%s: %s" % (k if rng.random() < 0.6 else json5_string(k, rng), v) for k, v in members) + ("," if rng.random() < 0.2 else "") + "}"
+    return "{" + ", ".join("%s: %s" % (k if rng.random() < 0.7 else jstr(k), v) for k, v in members) + "}"
+
+
+def seq_spelling(el, fmt, rng, flow=True, top=False):
     """a range declaration (nested lists of strings and numbers): element order is content, spelling is not"""
+    if top and isinstance(el, list):
+        # the branches: tuples `[value, count...]` or objects `{count, value}`
+        inner = [branch_object(e, fmt, rng) if isinstance(e, list) and e and isinstance(e[0], str) and rng.random() < 0.45
+                 else seq_spelling(e, fmt, rng) for e in el]
+        if fmt == "json5" and inner and rng.random() < 0.3:
+            return "[" + ", ".join(inner) + ",]"
+        return "[" + rng.choice([", ", ","]).join(inner) + "]"
     if isinstance(el, list):
         inner = [seq_spelling(e, fmt, rng) for e in el]
         if fmt == "json5" and inner and rng.random() < 0.3:
@@ -392,7 +423,14 @@ def scalar(v, fmt, rng, ind=0):
         spelled(fmt, "null")
         return rng.choice(["null", "~", "Null", "NULL", ""]) if fmt == "yaml" else "null"
     if v[0] == "seq":
-        return seq_spelling(v[1], fmt, rng)
+        return seq_spelling(v[1], fmt, rng, top=True)
+    if v[0] == "fkargs":
+        # a foreign key with an argument object: the members of that object (inside the string) in a random order
+        args = list(v[2])
+        rng.shuffle(args)
+        spelled(fmt, "$t argument object, %s first" % args[0][0])
+        text = v[3] + "$t(" + v[1] + rng.choice([", ", ",", " , "]) + "{" + ", ".join("%s: %s" % (jstr(k), jstr(a)) for k, a in args) + "})" + v[4]
+        return {"json": json_string, "json5": json5_string}[fmt](text, rng) if fmt != "yaml" else yaml_string(text, rng, ind=ind)
     raise ValueError(v)
 
 
@@ -435,7 +473,19 @@ def to_yaml(tree, rng, ind=0):
             # block sequence of the branches, each branch a flow sequence or a nested block sequence
             lines.append("%s%s:" % (pad, key))
             for el in v[1]:
-                if isinstance(el, list) and el and rng.random() < 0.4:
+                if isinstance(el, list) and el and isinstance(el[0], str) and rng.random() < 0.35:
+                    if rng.random() < 0.5:
+                        lines.append("%s  - %s" % (pad, branch_object(el, "yaml", rng)))
+                    else:
+                        # block mapping: `- count: 0` / `  value: "zero"` in either order
+                        ms = [("value", seq_spelling(el[0], "yaml", rng))]
+                        if len(el) >= 2:
+                            ms.append(("count", seq_spelling(el[1] if len(el) == 2 else list(el[1:]), "yaml", rng)))
+                        rng.shuffle(ms)
+                        spelled("yaml", "range branch as block mapping, %s first" % ms[0][0])
+                        for i, (k2, v2) in enumerate(ms):
+                            lines.append("%s  %s %s: %s" % (pad, "-" if i == 0 else " ", k2, v2))
+                elif isinstance(el, list) and el and rng.random() < 0.4:
                     first = True
                     for sub in el:
                         lines.append("%s  %s %s" % (pad, "- -" if first else "  -", seq_spelling(sub, "yaml", rng)))
@@ -515,12 +565,13 @@ def norm_num(s):
     return NUMTYPE.sub("Int(", s)
 
 
-def same_format_view(d):
+def same_format_view(d, fmt=None):
     """everything, for runs of one format (orders, repetitions)"""
     if d["result"][0] == "ok":
         return ("ok", d["D"], tuple(d["W"]), tuple(d["K"]), tuple(sorted((k, tuple(v)) for k, v in d["T"].items())))
     # an error: variant and full text (every key path / locale / file it names); only line/column numbers are stripped
-    return (tuple(d["result"][:2]), ERR_POS.sub("", d["E"] or ""))
+    # (serde_yaml's document-path prefix depends on how a range branch happens to be spelled - tuple or object - and is removed)
+    return (tuple(d["result"][:2]), error_core(d, fmt) if fmt else ERR_POS.sub("", d["E"] or ""))
 
 
 ERR_POS = re.compile(r',?\s*line: \d+|,?\s*column: \d+|,?\s*location: (?:None|Some\(Location \{[^}]*\}\))| at line \d+ column \d+')
@@ -584,6 +635,8 @@ def refs_of(node, ns):
     """the key paths the `$t(..)` foreign keys of a value name (inside this unit); a reference into another namespace is outside
     the Coq model"""
     texts = []
+    if node[0] == "fkargs":
+        texts.append("$t(%s)" % node[1])
 
     def walk(x):
         if isinstance(x, str):
@@ -743,17 +796,39 @@ def order_trees(proj, order):
     return [[permute(r, t) for t in u["trees"]] for u in proj["units"]]
 
 
-def do_run(bindirs, root, proj, fmt, order, tag, codegen=True):
-    """write the project in one format and key order and load it in fresh processes"""
+def read_files(d):
+    """the locale files of a written project, relative path -> text (what was really loaded)"""
+    out = {}
+    base = os.path.join(d, "locales")
+    for dp, _, fs in os.walk(base):
+        for f in sorted(fs):
+            p = os.path.join(dp, f)
+            out[os.path.relpath(p, d)] = open(p, encoding="utf-8").read()
+    return out
+
+
+def do_run(bindirs, root, proj, fmt, order, tag, codegen=True, spell_seed=None, files=None):
+    """write the project in one format and key order and load it in fresh processes.
+    [spell_seed]: seed of the per-format spelling choices (quotes, number forms, range branches as tuples or objects with either
+    member order, order of `$t` argument members): deterministic, so that a run can be repeated; [files]: write these texts
+    verbatim instead (replay of a recorded run)"""
     import random
+    import zlib
     d = os.path.join(root, tag)
     trees = order_trees(proj, order)
-    write_project(d, proj, fmt, trees, random.Random(hash((tag, str(order))) & 0xffffffff))
+    if spell_seed is None:
+        spell_seed = zlib.crc32(("%s|%s" % (tag, order)).encode())
+    write_project(d, proj, fmt, trees, random.Random(spell_seed))
+    if files:
+        for rel, txt in files.items():
+            with open(os.path.join(d, rel), "w", encoding="utf-8") as fh:
+                fh.write(txt)
     dump = parse_dump(run_one(exe_of(bindirs, fmt), "project", d))
     cg = None
     if codegen:
         cg = "\n".join(run_one(exe_of(bindirs, fmt), "codegen", d))
-    return {"fmt": fmt, "order": order, "dir": d, "trees": trees, "dump": dump, "codegen": cg}
+    return {"fmt": fmt, "order": order, "dir": d, "trees": trees, "dump": dump, "codegen": cg, "spell_seed": spell_seed,
+            "files": read_files(d)}
 
 
 def plan(ctx, k_orders):
@@ -776,7 +851,7 @@ def compare_runs(runs):
     for fmt, rs in by_fmt.items():
         a = rs[0]
         for b in rs[1:]:
-            va, vb = same_format_view(a["dump"]), same_format_view(b["dump"])
+            va, vb = same_format_view(a["dump"], a["fmt"]), same_format_view(b["dump"], b["fmt"])
             if va != vb:
                 kind = "run" if a["order"] == b["order"] else "order"
                 what = "result" if va[0] != vb[0] else "error text (the key / locale the diagnostic names)" if va[0] != "ok" else \
@@ -840,14 +915,14 @@ def shrink(bindirs, root, proj, a, b, limit=400, tokens=False):
     [tokens]: the recorded difference is the generated token stream (the dumps agree), so the code generator is run too"""
     def differs(q, n):
         try:
-            ra = do_run(bindirs, root, q, a["fmt"], a["order"], "shr_a%d" % (n % 8), codegen=tokens)
-            rb = do_run(bindirs, root, q, b["fmt"], b["order"], "shr_b%d" % (n % 8), codegen=tokens)
+            ra = do_run(bindirs, root, q, a["fmt"], a["order"], "shr_a%d" % (n % 8), codegen=tokens, spell_seed=a.get("spell_seed"))
+            rb = do_run(bindirs, root, q, b["fmt"], b["order"], "shr_b%d" % (n % 8), codegen=tokens, spell_seed=b.get("spell_seed"))
         except core.Infra:
             return False
         if tokens:
             return ra["codegen"] != rb["codegen"]
         if a["fmt"] == b["fmt"]:
-            return same_format_view(ra["dump"]) != same_format_view(rb["dump"])
+            return same_format_view(ra["dump"], ra["fmt"]) != same_format_view(rb["dump"], rb["fmt"])
         return cross_format_view(ra["dump"], ra["fmt"]) != cross_format_view(rb["dump"], rb["fmt"])
     n = 0
     progress = True
@@ -864,14 +939,9 @@ def shrink(bindirs, root, proj, a, b, limit=400, tokens=False):
 
 
 def describe(proj, run):
-    files = {}
-    for u, trees in zip(proj["units"], run["trees"]):
-        for loc, t in zip(proj["locales"], trees):
-            name = "locales/%s.%s" % (loc, EXT[run["fmt"]]) if u["ns"] is None else "locales/%s/%s.%s" % (loc, u["ns"], EXT[run["fmt"]])
-            import random
-            files[name] = SERIALISE[run["fmt"]](t, random.Random(0), 0)
+    files = run["files"]          # the texts that were really written and loaded
     d = run["dump"]
-    return {"format": run["fmt"], "key_order": str(run["order"]), "files": files, "result": d["result"],
+    return {"format": run["fmt"], "key_order": str(run["order"]), "spell_seed": run.get("spell_seed"), "files": files, "result": d["result"],
             "values": ["%s[%s] %s = %s" % (a, b, c, v[:160]) for a, b, c, v in d["K"]][:40], "warnings": d["W"][:20],
             "string_tables": {"%s[%d]" % k: [unhex(h) for h in v][:40] for k, v in d["T"].items()}, "error": d["E"]}
 
@@ -882,7 +952,7 @@ CORPUS = [
         [("c1", ("str", "<b>x< /b>")), ("c2", ("str", "< b >x</ b >")), ("c3", ("str", "<b\t>x<\t/b>")), ("c4", ("str", "<\u00a0b>x<\u3000/\u00a0b\u3000>")),
          ("c5", ("str", "<b>x</b >")), ("c6", ("str", "<b>x</c>")), ("c7", ("str", "<b/>x")), ("c8", ("str", "a < b > c")),
          ("v1", ("str", "{{x}}")), ("v2", ("str", "{{  x , number }}")), ("v3", ("str", "{{\u00a0x\u3000}}")), ("v4", ("str", "{ {x} }")),
-         ("r1", ("seq", [["<b>x< /b>", 0], ["{{count}}", "0x1"], ["< i >y</ i >"]])),
+         ("r1", ("seq", [["<b>x< /b>", 0], ["{{count}}", 1, "3..5"], ["< i >y</ i >"]])),
          ("n1", ("int", 16)), ("n2", ("int", 255)), ("f1", ("float", 100.0)), ("f2", ("float", 0.5)), ("f3", ("float", 5.0)), ("t", ("bool", True))]
         + [("l%d" % i, ("str", t)) for i, t in enumerate(LOOKALIKES)]]}], "fault": None},
     # two distinct member names that denote the same key after Key::new's trim
@@ -978,8 +1048,8 @@ def _run(ctx, bindirs, ok, problems, root):
         pi, a, b, why = spec_fail[0]
         tokens = "token stream" in why
         small = shrink(bindirs, root, projects[pi], a, b, tokens=tokens)
-        ra = do_run(bindirs, root, small, a["fmt"], a["order"], "final_a", codegen=tokens)
-        rb = do_run(bindirs, root, small, b["fmt"], b["order"], "final_b", codegen=tokens)
+        ra = do_run(bindirs, root, small, a["fmt"], a["order"], "final_a", codegen=tokens, spell_seed=a.get("spell_seed"))
+        rb = do_run(bindirs, root, small, b["fmt"], b["order"], "final_b", codegen=tokens, spell_seed=b.get("spell_seed"))
         obj = {"failing_input": {"project": small, "run_a": describe(small, ra), "run_b": describe(small, rb),
                                  "difference": "generated token stream" if tokens else "dump"},
                "explanation": "the same translation content loaded twice (other key order / file format / process) gave different "
@@ -1069,11 +1139,11 @@ def replay(ctx, path):
     def order_of(s):
         return s if s in ("sorted", "reversed", "as-is") else tuple(eval(s))
     tokens = fi.get("difference") == "generated token stream" or "token stream" in obj.get("explanation", "")
-    ra = do_run(bindirs, root, proj, fi["run_a"]["format"], order_of(fi["run_a"]["key_order"]), "a", codegen=tokens)
-    rb = do_run(bindirs, root, proj, fi["run_b"]["format"], order_of(fi["run_b"]["key_order"]), "b", codegen=tokens)
+    ra = do_run(bindirs, root, proj, fi["run_a"]["format"], order_of(fi["run_a"]["key_order"]), "a", codegen=tokens, files=fi["run_a"].get("files"))
+    rb = do_run(bindirs, root, proj, fi["run_b"]["format"], order_of(fi["run_b"]["key_order"]), "b", codegen=tokens, files=fi["run_b"].get("files"))
     for name, r in (("run A", ra), ("run B", rb)):
         print(name, json.dumps(describe(proj, r), indent=1, ensure_ascii=False)[:3000])
-    same = (same_format_view(ra["dump"]) == same_format_view(rb["dump"])) if ra["fmt"] == rb["fmt"] else \
+    same = (same_format_view(ra["dump"], ra["fmt"]) == same_format_view(rb["dump"], rb["fmt"])) if ra["fmt"] == rb["fmt"] else \
         (cross_format_view(ra["dump"], ra["fmt"]) == cross_format_view(rb["dump"], rb["fmt"]))
     if tokens:
         tsame = ra["codegen"] == rb["codegen"]
